@@ -104,6 +104,17 @@ CHECKS = {
             "MMSE may exceed P by 1e-6 relative (its own root-finder acceptance); MMSE Lagrange RuntimeError is tallied as a decline; MaxSINR/MMSE only with noise > 0; leakage increase allowed 1e-9 relative + 1e-12 of the initial unfiltered interference; the svd initialisation only for Nr = Nt.",
             "property-relation monitor after every setter + black-box and sys.monitoring trace observation of the iteration cost",
             "DESIGN.md §5 C10"),
+    "C18": ("exploration",
+            "Prime selection is enumerated for every size 25..1200 (plus the tabulated 12/24 and invalid sizes) against an independent "
+            "sieve, together with exact cyclic extension and agreement with a Zadoff-Chu reference whose phase is reduced with integer "
+            "arithmetic; CAZAC relations (unit amplitude, zero cyclic autocorrelation by FFT and by direct sums, flat spectrum), "
+            "cyclic-shift orthogonality for all SRS/DMRS shift pairs, and the estimators (plain, comb, cover code; 1-4 antennas; "
+            "normalised or not; 1-5 simultaneous users placed inside their shift windows or on the other cover code) are decided on "
+            "noise-free observations assembled by the harness from the published sequence arrays against a defining-sum DFT of the "
+            "true taps; the LS estimator on full-row-rank real and complex pilots in its 2-D and both 3-D forms.",
+            "Library phases are allowed 8 eps pi u N (double-precision evaluation of exp(-j pi u n(n+1)/N)); multi-user scenarios only for lengths that are multiples of the number of shifts, as the property states.",
+            "enumeration + independent reference sequences/DFT oracle over generated pilot scenarios",
+            "DESIGN.md §5 C18"),
 }
 
 PENDING_REASON = "check not built yet in this session (design in DESIGN.md §5); will be claimed once its monitors run clean on the unchanged tree"
